@@ -150,7 +150,8 @@ struct C06 : public Driver {
             }
             else if (r < 29 && gh.chance(1, 4)) { Json& o = op("param"); o["name"] = "N"; o["kind"] = "node"; o["psi"] = (int)gh.below(5); o["value"] = ""; }     // a node of a parsed source that is alive (no-op when there is none)
             else if (r < 29) { Json& o = op("param"); static const std::vector<std::string> nm = { "P1", "P2", "Q" }; o["name"] = gh.pick(nm); unsigned k = (unsigned)gh.below(4);
-                if (k == 0) { o["kind"] = "number"; o["value"] = std::to_string(gh.range(-5, 500)); } else if (k == 1) { o["kind"] = "string"; unsigned q = (unsigned)gh.below(8); o["value"] = q == 0 ? std::string("abort") : q == 1 ? std::string("badkey") : q < 4 ? "n" + std::to_string(gh.below(12)) : "s" + std::to_string(gh.below(100)); if (q < 4) o["name"] = "P1"; }
+                if (k == 0) { o["kind"] = "number"; o["value"] = std::to_string(gh.range(-5, 500)); { Rng gz = gh.fork("zero"); if (gz.chance(1, 3)) { const bool neg = gz.chance(1, 2); o["value"] = neg ? "-0" : "0"; o["name"] = "P2";      /* both zeros, with another number in between: equal as numbers, different under division */
+                      Json& o2 = op("param"); o2["name"] = "P2"; o2["kind"] = "number"; o2["value"] = std::to_string(gz.range(1, 50)); Json& o3 = op("param"); o3["name"] = "P2"; o3["kind"] = "number"; o3["value"] = neg ? "0" : "-0"; continue; } } } else if (k == 1) { o["kind"] = "string"; unsigned q = (unsigned)gh.below(8); o["value"] = q == 0 ? std::string("abort") : q == 1 ? std::string("badkey") : q < 4 ? "n" + std::to_string(gh.below(12)) : "s" + std::to_string(gh.below(100)); if (q < 4) o["name"] = "P1"; }
                 else if (k == 2) { o["kind"] = "expr"; static const std::vector<std::string> ex = { "1 + 2", "'lit'", "concat('a','b')", "7 div 2", "true()" }; o["value"] = gh.pick(ex); }
                 else { o["kind"] = "expr"; o["value"] = "((bad"; } }
             else if (r < 31) op("clear-params");
